@@ -653,3 +653,46 @@ def gen_nonconvex(rng):
 def nonconvex_faces(V, F):
     """indices of the faces that are planar but not convex"""
     return [fi for fi, f in enumerate(F) if len(f) > 3 and is_planar([V[v] for v in f]) and not convex_planar([V[v] for v in f])]
+
+
+# ------------------------------------------------------------------ repeated calls on one mesh object (idempotence)
+def gen_repeat(rng):
+    """(kind, V, F, C, script): a few calls, each issued two or three times with identical arguments on the same mesh
+    object - in a row or interleaved with the others - and no vertex is moved.  Half of the surfaces carry faces with
+    5 or more vertices (the accumulating branch of face_area)."""
+    for _ in range(50):
+        r = rng.random()
+        if r < 0.1:
+            kind = "vol"
+            V, C = gen_volume(rng)
+            F = None
+        elif r < 0.55:
+            kind = "poly"
+            V, F = polygon_patch(rng)
+            C = None
+            if not (manifold_report(F, len(V))[0] and nondegenerate_surface(V, F) and vertex_normals_defined(V, F)):
+                continue
+        else:
+            kind, V, F = gen_surface(rng, rng.choice(["tiny", "medium"]))
+            C = None
+        nF = len(F) if F else 0
+        nCorn = sum(len(f) for f in F) if F else 0
+        base = gen_script(rng, kind, len(V), nF, nCorn, len(C) if C else 0, 60)
+        # persistent computations first in the pool: they are the ones that leave state behind
+        pers = [c for c in base if len(c) >= 3 and isinstance(c[-1], bool) and isinstance(c[-2], bool)]
+        for c in pers:
+            if rng.random() < 0.7:
+                c[-2] = True
+        rng.shuffle(base)
+        chosen = base[:rng.randint(3, 5)]
+        if F and rng.random() < 0.8 and not any(c[0] == "face_area" for c in chosen):
+            chosen.append(["face_area", True, rng.random() < 0.5])
+        script = []
+        for c in chosen:
+            script += [c] * rng.choice([2, 2, 3])
+        if rng.random() < 0.5:
+            rng.shuffle(script)       # interleaved; otherwise in a row
+        if F and rng.random() < 0.6:
+            script += [["total_area"], ["mean_area", None], ["total_area"]]
+        return kind, V, F, C, [list(c) for c in script]
+    raise RuntimeError("repeat generator failed")
